@@ -159,6 +159,15 @@ class SymInputs:
     def is_none(self, x):
         return x is None
 
+    def isinstance(self, v, T):
+        return S.sym_isinstance(v, T)
+
+    def finite(self, f):
+        return f.isfinite()
+
+    def truncate(self, T, dt):
+        return T.truncate(dt)
+
 
 class RInputs(SymInputs):
     """Symbolic mode, integer/real family (standard model of floats)."""
@@ -299,6 +308,17 @@ class ConcreteInputs:
 
     def ite(self, cond, a, b):
         return a if cond else b
+
+    def isinstance(self, v, T):
+        return isinstance(v, T)
+
+    def finite(self, f):
+        import math
+
+        return math.isfinite(f)
+
+    def truncate(self, T, dt):
+        return T.truncate(dt)
 
     # R-mode helpers, concretely
     def packed(self, fmt, v):
